@@ -96,6 +96,35 @@ def server_cert(kind: str) -> tuple[bytes, bytes] | None:
     return pems
 
 
+# how an operator's certificate / key FILES may be encoded: PEM (what the documentation says), DER (what many CAs and key
+# stores export: .der / .cer / .crt), or one of each
+CERT_ENCODINGS = ("pem", "der", "der-cert", "der-key")
+
+
+def encoded(pems: tuple[bytes, bytes], encoding: str) -> tuple[bytes, bytes]:
+    """the same certificate and key in another file encoding"""
+    from cryptography import x509
+    from cryptography.hazmat.primitives import serialization
+
+    c, k = pems
+    if encoding in ("der", "der-cert"):
+        c = x509.load_pem_x509_certificate(c).public_bytes(serialization.Encoding.DER)
+    if encoding in ("der", "der-key"):
+        k = serialization.load_pem_private_key(k, None).private_bytes(serialization.Encoding.DER, serialization.PrivateFormat.TraditionalOpenSSL,
+                                                                       serialization.NoEncryption())
+    return c, k
+
+
+def write_cert_files(d: str, pems: tuple[bytes, bytes], encoding: str = "pem") -> tuple[str, str]:
+    """write certificate and key into directory `d` in the given encoding, named as an operator would name them"""
+    c, k = encoded(pems, encoding)
+    cf = os.path.join(d, "c.der" if encoding in ("der", "der-cert") else "c.pem")
+    kf = os.path.join(d, "k.der" if encoding in ("der", "der-key") else "k.pem")
+    Path(cf).write_bytes(c)
+    Path(kf).write_bytes(k)
+    return cf, kf
+
+
 def named_cert(org: str) -> tuple[bytes, bytes]:
     """Self-signed EC certificate for `localhost` whose subject also carries O=<org>: two of them can sit in
     one trust file without the verifier confusing one for the issuer of the other (same-name lookups)."""
@@ -175,10 +204,12 @@ class Started:
     auth   None or a list of rules {"prefix": str, "require_cert": bool, "fps": None | [str, ...]}
     """
 
-    def __init__(self, entry: str, cert: str, rcc: bool, auth: list | None, docroot: str, extra: list | None = None):
+    def __init__(self, entry: str, cert: str, rcc: bool, auth: list | None, docroot: str, extra: list | None = None, encoding: str = "pem"):
         assert entry in ("api", "cli", "toml")
         assert not (extra and entry == "api")   # extra settings are lines of a configuration FILE
+        assert encoding in CERT_ENCODINGS
         self.entry, self.cert, self.rcc, self.auth, self.docroot = entry, cert, rcc, auth, docroot
+        self.encoding = encoding   # how the SUPPLIED certificate and key files are encoded (see `encoded`)
         self.extra = [tuple(e) for e in (extra or [])]   # (table, key, value as TOML text)
         self.factory = None
         self.started = False
@@ -319,9 +350,7 @@ class Started:
                 return self
             d = tempfile.mkdtemp(prefix="nv-")
             self._tmp.append(d)
-            cf, kf = os.path.join(d, "c.pem"), os.path.join(d, "k.pem")
-            Path(cf).write_bytes(pems[0])
-            Path(kf).write_bytes(pems[1])
+            cf, kf = write_cert_files(d, pems, self.encoding)
         d2 = tempfile.mkdtemp(prefix="nv-")   # nauyaca's self-signed fallbacks drop their files into tempfile.tempdir
         self._tmp.append(d2)
         old_tmp, tempfile.tempdir = tempfile.tempdir, d2
